@@ -169,3 +169,130 @@ Proof.
   - unfold loop_alive in Hla. destruct (s_loop k); try discriminate; reflexivity.
   - right. rewrite <- (C07_rerr_l _ _ _ _ H Hn Hd). exact He.
 Qed.
+
+(* ---------- the strict receive statement (after the repair of D-07s, 72f38d7) ---------- *)
+(* the errors a stream that was still running when its context ended can end with: the context's status, the
+   outcome of a terminal envelope the loop took in the race, or the undecodable-metadata abort - never
+   "respChan closed" or the connection error *)
+Definition allowed (x : cerr) : bool :=
+  match x with ECanceled | EDeadline | EEof | EStatus _ | EReset | EBadMd => true | _ => false end.
+
+Definition ends_well (k : call) : Prop :=
+  running_loop (s_loop k) = true \/ (forall x, l_rerr k = Some x -> allowed x = true).
+
+Definition cancelled_running (s : state) (c : nat) : Prop :=
+  exists k, nth_error (calls s) c = Some k /\ sctx_done k = true /\ ends_well k.
+
+Lemma final_allowed e x : final_of e = Some x -> allowed x = true.
+Proof.
+  unfold final_of. destruct (erst e); [intros H; inversion H; reflexivity|].
+  destruct (etrl e); try discriminate. destruct (estatus e) as [st|]; [destruct (st_code st =? 0)|]; intros H; inversion H; reflexivity.
+Qed.
+
+Lemma ctx_status_allowed k : allowed (ctx_status k) = true.
+Proof. unfold ctx_status. destruct (k_ctx k); reflexivity. Qed.
+
+Lemma cr_same s s' c : cancelled_running s c -> calls s' = calls s -> cancelled_running s' c.
+Proof. intros (k & Hn & A & B) Hc. exists k. rewrite Hc. auto. Qed.
+
+Lemma cr_upd s s' c c' k k' :
+  cancelled_running s c -> nth_error (calls s) c' = Some k -> calls s' = upd c' k' (calls s) ->
+  (c' = c -> sctx_done k = true -> ends_well k -> sctx_done k' = true /\ ends_well k') ->
+  cancelled_running s' c.
+Proof.
+  intros (k0 & Hn & A & B) Hn' Hc Heq. destruct (Nat.eq_dec c' c).
+  - subst c'. rewrite Hn in Hn'. inversion Hn'; subst k0. destruct (Heq eq_refl A B) as (A' & B').
+    exists k'. rewrite Hc. rewrite nth_upd_eq; eauto using nth_some_lt.
+  - exists k0. rewrite Hc. rewrite nth_upd_neq; auto.
+Qed.
+
+Lemma cr_with_call s c c' f :
+  cancelled_running s c ->
+  (forall k k', f k = Some k' -> (sctx_done k = true -> sctx_done k' = true) /\ s_loop k' = s_loop k /\ l_rerr k' = l_rerr k) ->
+  cancelled_running (with_call s c' f) c.
+Proof.
+  intros HD Hf. unfold with_call. destruct (nth_error (calls s) c') as [k|] eqn:E; auto. destruct (f k) as [k'|] eqn:Ef; auto.
+  destruct (Hf _ _ Ef) as (A & B & C). eapply (cr_upd s (set_call s c' k') c c' k k' HD E eq_refl).
+  intros _ Hd He. split; auto. unfold ends_well in *. rewrite B, C. auto.
+Qed.
+
+Ltac crk :=
+  let Hd := fresh "Hd" in let He := fresh "He" in
+  intros _ Hd He; unfold ends_well, running_loop, sctx_done in *; csimpl;
+  repeat match goal with E0 : s_loop _ = _ |- _ => rewrite E0 in * end; csimpl;
+  split; [rewrite ?orb_true_r; auto with bool | ];
+  try (left; reflexivity);
+  try (right; intros x Hx; inversion Hx; subst; auto using ctx_status_allowed; fail);
+  try (destruct He as [He|He]; [discriminate He | right; exact He]; fail);
+  auto.
+
+Ltac crupd HD E :=
+  match goal with
+  | |- cancelled_running (add_log (set_call _ _ ?k') _) _ => eapply (cr_upd _ _ _ _ _ k' HD E); [reflexivity|]
+  | |- cancelled_running (set_call _ _ ?k') _ => eapply (cr_upd _ _ _ _ _ k' HD E); [reflexivity|]
+  end; crk.
+
+Lemma cr_step s l s' c : cancelled_running s c -> lstep s l = Some s' -> cancelled_running s' c.
+Proof.
+  intros HD H. apply lstep_kind in H.
+  destruct H as [a H|H|H|c' H|c' H|c' H|c' H|c' H|c' H|c' H|c' H|c' H|c' H|c' H|c' H|c' H|c' H|c' H].
+  - subst s'. destruct a; simpl;
+      try (apply cr_with_call; auto; intros k k' Hf;
+           repeat match type of Hf with match ?y with _ => _ end = Some _ => destruct y eqn:?; try discriminate Hf end;
+           inversion Hf; unfold sctx_done; csimpl; repeat split; auto; intros; rewrite ?orb_true_r; auto with bool; fail);
+      try (eapply cr_same; eauto; reflexivity; fail).
+    + destruct HD as (k & Hn & A & B); exists k; simpl. rewrite nth_error_app1; eauto using nth_some_lt.
+    + destruct HD as (k & Hn & A & B); exists k; simpl. rewrite nth_error_app1; eauto using nth_some_lt.
+    + destruct (nth_error (calls s) c0) as [k|] eqn:E; auto. destruct (k_pc k) eqn:Ep; auto.
+      eapply (cr_upd s _ c c0 k (set_id (set_pc k PReg) (counter s + 1)) HD E); [reflexivity|]. crk.
+  - unfold r_rl_unblock in H. open_rule H; try (eapply cr_same; eauto; reflexivity). crupd HD E0.
+  - unfold r_rl_read in H. open_rule H; try (eapply cr_same; eauto; reflexivity).
+    + destruct HD as (k & Hn & A & B).
+      exists (if k_reg k then set_chan k (mkChan (cbuf (k_chan k)) true) false else k). csimpl. unfold close_all.
+      rewrite nth_error_map, Hn. simpl. destruct (k_reg k); auto.
+    + crupd HD E2.
+  - unfold r_check in H. open_rule H; crupd HD E.
+  - unfold r_reg in H. open_rule H; crupd HD E.
+  - unfold r_wait in H. open_rule H; crupd HD E.
+  - unfold r_wait_ctx in H. open_rule H; crupd HD E.
+  - unfold r_unreg in H. open_rule H; destruct (k_reg c0); crupd HD E.
+  - unfold r_loop_read in H. open_rule H; crupd HD E.
+    + right. intros x Hx. inversion Hx; subst. eapply final_allowed; eauto.
+    + right. intros x Hx. inversion Hx; subst. unfold closed_err, sctx_done. rewrite Hd. apply ctx_status_allowed.
+  - unfold r_loop_read_ctx in H. open_rule H; crupd HD E.
+  - unfold r_loop_hand in H. open_rule H; crupd HD E.
+  - unfold r_loop_hand_ctx in H. open_rule H; crupd HD E.
+  - unfold r_loop_exit in H. open_rule H; crupd HD E.
+  - unfold r_loop_unreg in H. open_rule H; crupd HD E.
+  - unfold r_recv in H. open_rule H; crupd HD E.
+  - unfold r_header in H. open_rule H; crupd HD E.
+  - unfold r_trailer in H. open_rule H; crupd HD E.
+  - unfold r_send in H. open_rule H; crupd HD E.
+Qed.
+
+Lemma cr_run ls2 : forall s1 s2 c, cancelled_running s1 c -> lrun s1 ls2 = Some s2 -> cancelled_running s2 c.
+Proof.
+  induction ls2 as [|l t IH]; simpl; intros s1 s2 c HD H.
+  - inversion H; subst; auto.
+  - destruct (lstep s1 l) as [s|] eqn:E; try discriminate. eapply IH; [eapply cr_step; eauto | eauto].
+Qed.
+
+(* C07, the strict receive statement: a stream whose loop was still running when its context ended (the call had
+   not completed) ends, in every quiescent state of every continuation, with a terminal error that is the
+   Canceled / DeadlineExceeded status - or the outcome of a terminal envelope the loop took in the race, or the
+   undecodable-metadata abort - never "respChan closed" or the connection error; by C07_after_done every later
+   RecvMsg returns exactly that error. *)
+Lemma C07_recv_strict_l ls1 ls2 s1 s2 c k2 :
+  lrun init ls1 = Some s1 -> cancelled_running s1 c -> lrun s1 ls2 = Some s2 ->
+  quiescent s2 = true -> nth_error (calls s2) c = Some k2 -> k_pc k2 = POpen ->
+  exists x, s_rerr k2 = Some x /\ allowed x = true /\ done_with s2 c x.
+Proof.
+  intros H1 HD H2 Hq Hn Hp.
+  assert (Hr : lrun init (ls1 ++ ls2) = Some s2) by (rewrite (lrun_app _ _ _ _ H1); auto).
+  destruct (cr_run _ _ _ _ HD H2) as (k & Hk & Hc & He). rewrite Hn in Hk. inversion Hk; subst k.
+  destruct (C07_caller_unblocked_l _ _ _ _ Hr Hq Hn Hp Hc) as (Hl & Hd & _ & _ & _ & _ & _ & x & Hx).
+  exists x. split; auto. split.
+  - destruct He as [He|He]; [rewrite Hl in He; discriminate|]. apply He.
+    rewrite <- (C07_rerr_l _ _ _ _ Hr Hn Hd). auto.
+  - exists k2. auto.
+Qed.
